@@ -2,6 +2,7 @@ import HcipyVerif.Model.PassiveOptics
 import HcipyVerif.Lemmas.Jones
 import HcipyVerif.Lemmas.FftIndex
 import HcipyVerif.Lemmas.FourierLinkC04
+import HcipyVerif.Lemmas.NearFieldGRat
 import Mathlib.Tactic.Ring
 import Mathlib.Tactic.Linarith
 import Mathlib.Analysis.SpecialFunctions.Trigonometric.Basic
@@ -180,4 +181,40 @@ theorem gaussKerB_eq (M : ℕ) (hM : M = 1 ∨ M = 2 ∨ M = 4) (n : ℤ) :
   rw [iPow_eq]
   congr 1
   rcases hM with h | h | h <;> subst h <;> push_cast <;> ring
+
+/-! ### Round 5: `knifeRow` commutes with every map of scalars preserving `0`, `+`, `·` (so running it at the formal phase sums is
+running it at the complex numbers they denote) -/
+section map
+variable {C C' : Type} [Zero C] [Add C] [Mul C] [Zero C'] [Add C'] [Mul C']
+  (φ : C → C') (h0 : φ 0 = 0) (hadd : ∀ a b, φ (a + b) = φ a + φ b) (hmul : ∀ a b, φ (a * b) = φ a * φ b)
+include h0 hadd hmul
+
+theorem dft_map (M : ℕ) (ker : ℤ → C) (a : ℕ → C) (q : ℕ) :
+    φ (Fft.dft M ker a q) = Fft.dft M (fun n => φ (ker n)) (fun p => φ (a p)) q := by
+  unfold Fft.dft
+  rw [NearField.sumRange_map φ h0 hadd]
+  congr 1
+  funext p
+  rw [hmul]
+
+theorem knifeRow_map (N M start : ℕ) (kF kB : ℤ → C) (sc : C) (mask x : ℕ → C) (j : ℕ) :
+    φ (knifeRow N M start kF kB sc mask x j)
+      = knifeRow N M start (fun n => φ (kF n)) (fun n => φ (kB n)) (φ sc) (fun q => φ (mask q)) (fun i => φ (x i)) j := by
+  unfold knifeRow
+  rw [hmul, dft_map φ h0 hadd hmul]
+  congr 2
+  funext q
+  rw [hmul, dft_map φ h0 hadd hmul]
+  congr 2
+  funext p
+  unfold padAt
+  split_ifs
+  · rfl
+  · exact h0
+
+end map
+
+/-- the complex number a pair of rationals (the exact value of a pair of floats) denotes -/
+noncomputable def cxC (z : Cx Rat) : ℂ := NearField.GRat.toC ⟨z.re, z.im⟩
+
 end HcipyVerif.Passive
